@@ -230,9 +230,9 @@ __CPROVER_ensures(HINV)
 	(r) < EA_SZ + 12 ? MARK_BYTE((r) - EA_SZ, '[', g_clk_prev) : MARK_BYTE((r) - EA_SZ - 12, ']', g_now))
 #define EA_CONTRACT \
 RT_WF_REQ \
+__CPROVER_requires(EV_OK(ev) && !(ev->header.flags & OVNI_EV_JUMBO)) \
 /* only a flushing call needs headroom for the flushed bytes */ \
 __CPROVER_requires(g_file_len < (1UL << 61) || !EA_WILLFLUSH) \
-__CPROVER_requires(EV_OK(ev) && !(ev->header.flags & OVNI_EV_JUMBO)) \
 __CPROVER_requires(HINV) \
 __CPROVER_assigns(rthread.evlen, g_died) \
 __CPROVER_assigns(!EA_WILLFLUSH: __CPROVER_object_upto(rthread.evbuf + rthread.evlen, EA_SZ)) \
